@@ -57,6 +57,16 @@ def cases(tier, seed):
         sfx = suffixes if (tier == "thorough" or len(case["tags"]) <= 2) else ["inh1", "ext.lbl", "pcr.lbl", "bra", "rmb300", "equ16", "fcc11", "end"]
         for s in sfx:
             yield dict(base, tr="suffix", arg=s)
+    # interacting PC-relative statements (sizes that depend on each other) with a PC-relative or branch statement appended
+    for ra, rb in itertools.product(["S0", "LA", "M", "LB", "S3"], repeat=2):
+        for g1 in (112, 118, 121, 122, 123, 126, 131):
+            for g2 in (112, 118, 122, 124, 127):
+                for sfx in ("LEAX S0,PCR", "LEAY S3,PCR", "LDD LA,PCR", "LEAX M,PCR", "LEAX LB,PCR", "LEAX ZNEW,PCR", "BRA S3", "LBRA S0", "NOP"):
+                    yield {"two": [ra, rb, g1, g2], "tr": "suffix.pcr", "arg": sfx}
+    for r in itertools.product(["S0", "LB", "M1", "LC", "M2", "S4"], repeat=3):
+        for g0, g1 in itertools.product((112, 118, 122, 126), repeat=2):
+            for sfx in ("LEAX LB,PCR", "LEAX LA,PCR", "LEAY S4,PCR", "LDD M1,PCR", "LEAX ZNEW,PCR", "BRA S4"):
+                yield {"three": [list(r), g0, g1], "tr": "suffix.pcr", "arg": sfx}
     for name in ("readme", "xref", "pcr"):
         for d in SHIFTS:
             yield {"big": name, "tr": "shift", "arg": d}
@@ -101,6 +111,13 @@ def reformat(line, how):
 
 
 def base_lines(case):
+    if "two" in case:
+        ra, rb, g1, g2 = case["two"]
+        return ["S0 NOP", "LA LEAX {},PCR".format(ra), " RMB {}".format(g1), "M NOP", "LB LEAX {},PCR".format(rb), " RMB {}".format(g2), "S3 NOP"], None
+    if "three" in case:
+        r, g0, g1 = case["three"]
+        return ["S0 NOP", "LA LEAX {},PCR".format(r[0]), " RMB {}".format(g0), "LB LEAY {},PCR".format(r[1]), "M1 RMB {}".format(g1),
+                "LC LDD {},PCR".format(r[2]), "M2 NOP", "S4 NOP"], None
     if "big" in case:
         lines = [ln for ln in c19.BIG[case["big"]]]
         lines = [ln for ln in lines if fields(ln)[1] not in ("ORG",)]
@@ -142,7 +159,9 @@ def decode_statements(out, lines):
 def check_case(case):
     lines0, labels = base_lines(case)
     tr, arg = case["tr"], case["arg"]
-    cell = "{}|{}|{}".format(tr, arg if tr != "rename" else "map{}".format(arg), case.get("big") or ",".join(case["tags"]))
+    cell = "{}|{}|{}".format(tr, arg if tr != "rename" else "map{}".format(arg),
+                             case.get("big") or ("two:{}>{}".format(case["two"][0], case["two"][1]) if "two" in case else
+                                                  "three:{}".format(">".join(case["three"][0])) if "three" in case else ",".join(case["tags"])))
     res = {"nontrivial": False, "outcome": "skip", "state": "skip"}
     viol = []
 
@@ -212,6 +231,18 @@ def check_case(case):
             bad("reformatted program rejected", "accepted", common.outcome_brief(out))
         elif out["image"] != ref["image"] or out["addrs"] != ref["addrs"] or out["symbols"] != ref["symbols"]:
             bad("reformatting changes the output", ref["image"].hex()[:40], out["image"].hex()[:40])
+    elif tr == "suffix.pcr":
+        out = common.assemble_confirm(base + ["ZNEW " + arg])
+        if out["kind"] != "OK":
+            bad("appending a statement makes the program rejected", "accepted", common.outcome_brief(out))
+        else:
+            n = len(base)
+            if out["image"][:len(ref["image"])] != ref["image"]:
+                bad("appending a statement changes earlier bytes", ref["image"].hex()[:20] + "...", out["image"].hex()[:20] + "...")
+            elif out["addrs"][:n] != ref["addrs"]:
+                bad("appending a statement changes earlier addresses", ref["addrs"], out["addrs"][:n])
+            elif any(out["symbols"].get(k) != v for k, v in ref["symbols"].items()):
+                bad("appending a statement changes earlier symbol values", ref["symbols"], out["symbols"])
     elif tr == "suffix":
         _, mnem, optxt, kind, _ = c02.TAGS[arg]
         names = [fields(l)[0] for l in lines0 if fields(l)[0] and fields(l)[1] != "EQU"]
